@@ -42,6 +42,7 @@ import Driver.AdpcmEnc
 import Driver.AbsTwin
 import Driver.AlacCore
 import Driver.AbsMeta
+import Driver.Chmap
 open Sf
 
 def lawOf (s : String) : Option G711.Law :=
@@ -129,4 +130,5 @@ def main (args : List String) : IO UInt32 := do
   | "abs-twin" :: rest => AbsTwinDriver.cmd rest
   | "alaccore" :: rest => Driver.AlacCore.cmd rest
   | "abs-meta" :: rest => AbsMetaDriver.cmd rest
+  | "chmap" :: rest => ChmapDriver.main rest
   | _ => IO.eprintln "usage: sfmodel <g711|...> ..."; return 2
